@@ -197,6 +197,21 @@ Theorem C08_concurrent_saves_index_current :
 Proof. exact concurrent_saves_index_current. Qed.
 Print Assumptions C08_concurrent_saves_index_current.
 
+(* the same without a hypothesis on the reached state: threads running any lists of Tag (digest
+   entry first, then the tag: two registrations), Tag-by-digest / manifest Push, Untag and
+   SaveIndex from a store at rest: the store invariant of the resolver map holds at every moment
+   of every schedule, and at quiescence index.json is its order-independent projection, from
+   which loadIndex rebuilds it (C08_save_is_projection / reopen theorems above) *)
+Theorem C08_concurrent_store_index_current :
+  forall (s0 : sstate rmap (list desc)) (sched : list (nat * (list nat * list nat))),
+    let proj := fun (c : list nat * list nat) (v : rmap) => save_index (fst c) (snd c) v in
+    IxInv (live _ _ s0) -> (exists c, disk _ _ s0 = proj c (live _ _ s0)) -> ilock _ _ s0 = None ->
+    (forall i, exists ops, ths _ _ s0 i = mkTh rmap [] [] None (map cop_thread_op ops)) ->
+    let s := run_sched rmap (list desc) (list nat * list nat) proj sched s0 in
+    IxInv (live _ _ s) /\ (quiescent rmap (list desc) s -> DiskOK (disk _ _ s) (live _ _ s)).
+Proof. exact concurrent_store_index_current. Qed.
+Print Assumptions C08_concurrent_store_index_current.
+
 (* any number of Tag / Delete / Push calls on the same content under every schedule: once all
    have returned, a registered reference points to content that exists *)
 Theorem C08_concurrent_tag_delete_valid :
